@@ -15,6 +15,7 @@ class FakeNcp:
         self.read_status = []
         self.answer = 0
         self.writes = []
+        self.sl = False            # a v14 NCP: unified statuses
 
     async def getConfigurationValue(self, cfg):
         import bellows.types as t
@@ -39,7 +40,7 @@ class FakeNcp:
             self.table[idx] = [int(entry.multicastId), int(entry.endpoint)]
         if a == T_APPLIED:
             raise asyncio.TimeoutError()
-        return (t.EmberStatus(a),)
+        return ((t.sl_Status if self.sl else t.EmberStatus)(a),)
 
 
 def initial_tables(size):
@@ -63,14 +64,14 @@ class Check(PropertyCheck):
     case_type = "(list (N * N) * list (N * N * N * N * list N))"
     shard = 300
     rule = ("start-up scan then every subscribe/unsubscribe sequence up to a length bound over 3 groups, table sizes 0..4, "
-            "each write answered {success, rejection, timeout (write lost), timeout (write applied)}, from initial NCP tables in "
+            "each write answered {success, rejection (every status of the legacy and of the unified family), timeout (write lost), timeout (write applied)}, from initial NCP tables in "
             "which each group appears at most once; plus random longer sequences incl. unreadable entries; non-trivial = at "
             "least one table write was issued; distinct by (table, op sequence)")
     assumptions = ["the NCP applies a table write iff it answers success (or applied it before the response was lost)"]
 
     def case_from_json(self, j):
         return {"table": [tuple(e) for e in j["table"]], "init": (j["init"][0], list(j["init"][1])),
-                "ops": [tuple(o) for o in j["ops"]]}
+                "ops": [tuple(o) for o in j["ops"]], "sl": bool(j.get("sl"))}
 
     def setup(self):
         import stack
@@ -97,6 +98,17 @@ class Check(PropertyCheck):
                 for n in range(0, ex_len + 1):
                     for seq in itertools.product(ops, repeat=n):
                         cases.append({"table": tbl, "init": (0, []), "ops": list(seq)})
+        # every rejection status of the family (some steer the library: index out of range, table full, busy ...): a
+        # rejected write leaves the free indices as they were, whatever the status; legacy and unified (v14) families
+        for sl in (False, True):
+            codes = list(range(1, 256)) + ([0x0C01, 0x0C1E, 0xFFFF] if sl else [])
+            if tier == "quick":
+                codes = sorted(set([1, 2, 0x21, 0x27, 0x70, 0xB1, 0xB4, 0xB5] + rng.sample(codes, 24)))
+            for code in codes:
+                cases.append({"table": [(0, 0)], "init": (0, []), "sl": sl,
+                              "ops": [("sub", GROUPS[0], code), ("sub", GROUPS[0], 0), ("unsub", GROUPS[0], code), ("unsub", GROUPS[0], 0)]})
+                cases.append({"table": [(0, 0), (GROUPS[1], 1)], "init": (0, []), "sl": sl,
+                              "ops": [("sub", GROUPS[0], code), ("sub", GROUPS[2], 0), ("sub", GROUPS[0], 0)]})
         nrand = 1200 if tier == "quick" else 12000
         ops_r = self._ops([0, 0, 0x01, 0x70, 0xB5, T_LOST, T_APPLIED])
         for _ in range(nrand):
@@ -118,6 +130,7 @@ class Check(PropertyCheck):
     def run_impl(self, case):
         import bellows.multicast
         ncp = FakeNcp(case["table"])
+        ncp.sl = bool(case.get("sl"))
         mc = bellows.multicast.Multicast(ncp)
         out = []
 
@@ -190,7 +203,7 @@ class Check(PropertyCheck):
 
     # framework calls run_impl then model_input(case): attach the observation for `choice`
     def describe(self, case):
-        return {"table": case["table"], "init": case["init"], "ops": case["ops"]}
+        return {"table": case["table"], "init": case["init"], "ops": case["ops"], "sl": bool(case.get("sl"))}
 
     def monitor(self, case, obs):
         size = len(case["table"])
